@@ -402,7 +402,7 @@ PLAN = {
     },
 }
 
-HOOK_COMMITS = []
+HOOK_COMMITS = ['80fb3bbcc8d132db20ab96212733b3813c7bf871', '2dc4f85ea148049a5963f1c757f3d318d4996439', '2651018efa7abaad5c14a39704064549b045ccb8', 'e3facf511f2781e84fd357182b0b721f4a29773e']
 
 MANIFEST_TEXT = {
     "C20": {
